@@ -13,6 +13,7 @@ EncOk(e) == /\ e.ev = "enc" /\ e.out = "ok" /\ e.out2 = "ok"
             /\ e.bytes = EncBytes(cs.g, cs.bo)
             /\ e.hex = HexDigits(e.bytes)
             /\ e.keep                                  \* the encodings returned for the previous geometry have not changed
+            /\ e.stream                                \* encodings written back to back are read back one by one from a plain reader
 
 (* decoding agrees with the reference decoder (only evaluated for inputs listed in the trace) *)
 DecRef(e) == LET r == DecBytes(cs.bytes) IN
